@@ -199,7 +199,12 @@ class MCLevyCopulaSimulation:
                     adj_matrix[i, j] = adj_matrix[j, i] = next(outputs)
 
         variance_matrix = np.dot(adj_matrix, adj_matrix.T) + model_variance
-        diffusion_matrix = scipy.linalg.sqrtm(variance_matrix)
+        # symmetric positive semi-definite square root (scipy.linalg.sqrtm returns infinite entries for singular matrices,
+        # e.g. when several margins have no Brownian component)
+        eigenvalues, eigenvectors = np.linalg.eigh(variance_matrix)
+        diffusion_matrix = (
+            eigenvectors * np.sqrt(np.maximum(eigenvalues, 0.0))
+        ) @ eigenvectors.T
         self.diffusion_matrix = diffusion_matrix
 
     def simulate_markov_chain(self) -> MarkovChain:
